@@ -88,6 +88,45 @@ def block_index(fnode):
     return idx
 
 
+def append_goes_last(fnode, stmt, rec, key, aliases):
+    """for `rec.append(key)` under an if/else: True when the branch taken means `rec is empty or rec[-1] < key`, False when the
+    guard compares something else (the first element, another row, the wrong direction); None when there is no such guard"""
+    def is_last(e):
+        return isinstance(e, ast.Subscript) and same_expr(e.value, rec) and src(e.slice) == "-1"
+
+    def verdict(test, branch_true):
+        # accepted shapes:  else-branch of `rec and rec[-1] > key` ;  then-branch of `not rec or rec[-1] < key`
+        if isinstance(test, ast.BoolOp) and len(test.values) == 2:
+            a, b = test.values
+            if isinstance(test.op, ast.And) and not branch_true and same_expr(a, rec) and isinstance(b, ast.Compare) and len(b.ops) == 1:
+                l, r, op = b.left, b.comparators[0], b.ops[0]
+                if (is_last(l) and same_expr(r, key) and isinstance(op, (ast.Gt, ast.GtE))) or \
+                        (is_last(r) and same_expr(l, key) and isinstance(op, (ast.Lt, ast.LtE))):
+                    return True
+                return False
+            if isinstance(test.op, ast.Or) and branch_true and isinstance(a, ast.UnaryOp) and isinstance(a.op, ast.Not) and \
+                    same_expr(a.operand, rec) and isinstance(b, ast.Compare) and len(b.ops) == 1:
+                l, r, op = b.left, b.comparators[0], b.ops[0]
+                if (is_last(l) and same_expr(r, key) and isinstance(op, (ast.Lt, ast.LtE))) or \
+                        (is_last(r) and same_expr(l, key) and isinstance(op, (ast.Gt, ast.GtE))):
+                    return True
+                return False
+        return None
+    for n in ast.walk(fnode):
+        if isinstance(n, ast.If):
+            if any(x is stmt for x in n.body):
+                v = verdict(n.test, True)
+                if v is None and any(same_expr(x, rec) or (isinstance(x, ast.Subscript) and same_expr(x.value, rec)) for x in ast.walk(n.test)):
+                    v = False
+                return v
+            if any(x is stmt for x in n.orelse):
+                v = verdict(n.test, False)
+                if v is None and any(same_expr(x, rec) or (isinstance(x, ast.Subscript) and same_expr(x.value, rec)) for x in ast.walk(n.test)):
+                    v = False
+                return v
+    return None
+
+
 def extract_events(fi, fields):
     """representation writes performed by method ``fi`` through ``self``"""
     fnode = fi.node
@@ -98,6 +137,11 @@ def extract_events(fi, fields):
         if isinstance(s, ast.Assign) and len(s.targets) == 1 and isinstance(s.targets[0], ast.Name) \
                 and field_row(s.value, {}) is not None:
             aliases[s.targets[0].id] = s.value
+        if isinstance(s, ast.Assign) and len(s.targets) == 1 and isinstance(s.targets[0], ast.Tuple) and isinstance(s.value, ast.Tuple) \
+                and len(s.targets[0].elts) == len(s.value.elts):
+            for t, v in zip(s.targets[0].elts, s.value.elts):          # ladj, radj = self.ladj[u], self.radj[v]
+                if isinstance(t, ast.Name) and field_row(v, {}) is not None:
+                    aliases[t.id] = v
     for s in stmts_in(fnode):
         if isinstance(s, (ast.Assign, ast.AugAssign, ast.AnnAssign)):
             targets = s.targets if isinstance(s, ast.Assign) else [s.target]
@@ -164,6 +208,9 @@ def extract_events(fi, fields):
                     else:
                         ok = False
                     events.append(Event("row_insert", fld, s, row=row, key=key, sorted_ok=ok))
+                elif op == "append" and len(c.args) == 1 and append_goes_last(fnode, s, rec, c.args[0], aliases) is not None:
+                    # `row.append(key)` taken only when the row is empty or its last key is smaller: a sorted insert at the end
+                    events.append(Event("row_insert", fld, s, row=row, key=c.args[0], sorted_ok=append_goes_last(fnode, s, rec, c.args[0], aliases)))
                 elif op == "remove" and len(c.args) == 1:
                     events.append(Event("row_remove", fld, s, row=row, key=c.args[0]))
                 else:
@@ -362,32 +409,60 @@ def guard_info(fi, cfg, first_write_node):
 
 
 def co_executed(R, cfg, fi, cname, mname, events):
-    """every normal path that performs the first write performs all of them"""
-    nodes = []
+    """every normal path that performs one of the coupled writes performs all of them.  Alternative statements for the same logical
+    write (insert at the bisect position in one branch, append-at-the-end in the other) form one group: a path performs the write
+    when it passes any member of the group."""
+    groups = {}
     for e in events:
         n = cfg.node_of(e.stmt)
-        if n is not None and n not in nodes:
-            nodes.append(n)
-    if not nodes:
+        if n is None:
+            continue
+        if e.kind == "row_insert":
+            k = ("row_insert", e.field, src(e.row), src(e.key))
+        else:
+            k = (e.kind, e.field, id(n))
+        g = groups.setdefault(k, [])
+        if n not in g:
+            g.append(n)
+    if not groups:
         return None
+    allnodes = [n for g in groups.values() for n in g]
+    inst = "%s.%s: %d coupled writes" % (cname, mname, len(groups))
+    bad = None
+    for ka, A in groups.items():
+        for kb, B in groups.items():
+            if ka is kb:
+                continue
+            for a in A:
+                if a in B:
+                    continue
+                if cfg.reaches(cfg.entry, a, avoid=B) and cfg.reaches(a, cfg.exit, avoid=B):
+                    bad = (a, B[0])
+                    break
+            if bad:
+                break
+        if bad:
+            break
+    # the point before all writes: a write node dominating the others, else the last statement dominating every write
     first = None
-    for n in nodes:
-        if all(cfg.dominates(n, o) for o in nodes):
+    for n in allnodes:
+        if all(cfg.dominates(n, o) for o in allnodes):
             first = n
             break
-    inst = "%s.%s: %d coupled writes" % (cname, mname, len(nodes))
     if first is None:
+        cands = [n for n in cfg.stmt_nodes() if all(cfg.dominates(n, o) for o in allnodes)]
+        if cands:
+            first = max(cands, key=lambda n: n.lineno)
+    if bad:
         R.bad(F("CO-UPDATE", fi, "%s.%s coupled writes" % (cname, mname),
-                "the representation writes are not on one common path: some path performs one of them without "
-                "the others"))
-        return nodes[0]
-    missing = [o for o in nodes if not cfg.postdominates(o, first)]
-    if missing:
+                "a path that executes line %d can reach the normal exit without executing line %d (or its alternative): the redundant "
+                "representations drift apart" % (bad[0].lineno, bad[1].lineno), node=bad[0].stmt))
+    elif first is None:
         R.bad(F("CO-UPDATE", fi, "%s.%s coupled writes" % (cname, mname),
-                "a path that executes line %d can reach the normal exit without executing line %d: the redundant "
-                "representations drift apart" % (first.lineno, missing[0].lineno), node=missing[0].stmt))
+                "the representation writes are not on one common path: some path performs one of them without the others"))
+        return allnodes[0]
     else:
-        R.ok("CO-UPDATE", inst, fi.key, nontrivial=len(nodes) > 1)
+        R.ok("CO-UPDATE", inst, fi.key, nontrivial=len(groups) > 1)
     return first
 
 
@@ -433,6 +508,10 @@ def check_add_edge(R, prog, cname, spec, fi, events):
                     "the insert position is not bisect(<same row>, <same key>): the row does not stay sorted "
                     "(%s)" % src(e.stmt), e.stmt))
     # local renaming  u, v = min(u, v), max(u, v)  keeps the pair {a, b}
+    uniq = {}
+    for e in ins:
+        uniq.setdefault((e.field, src(e.row), src(e.key)), e)      # alternatives of one logical insert count once
+    ins = list(uniq.values())
     pairs = [(src(e.row), src(e.key)) for e in ins]
     if spec["undirected"]:
         want = {(a, b), (b, a)}
@@ -838,7 +917,7 @@ def check_views(R, prog, cname, spec, ci, roles):
         if has(cons, p, ">=", "", 1) and has(cons, p, "<=", bound, 0):
             R.ok("VALIDATE-FIRST", "%s.%s rejects %s outside 1..%s" % (cname, mname, p, bound), fi.key)
         else:
-            R.bad(F("VALIDATE-FIRST", fi, "%s.%s vertex range" % cname + " " + mname,
+            R.bad(F("VALIDATE-FIRST", fi, "%s.%s vertex range" % (cname, mname),
                     "the view must reject a vertex outside 1..%s with ValueError" % bound))
 
 
